@@ -7,8 +7,8 @@ import time
 import multiprocessing as mp
 import z3
 
-Z3_TIMEOUT_MS = int(os.environ.get('VERIF_Z3_TIMEOUT_MS', '60000'))
-CVC5_TIMEOUT_S = int(os.environ.get('VERIF_CVC5_TIMEOUT_S', '60'))
+Z3_TIMEOUT_MS = int(os.environ.get('VERIF_Z3_TIMEOUT_MS', '150000'))
+CVC5_TIMEOUT_S = int(os.environ.get('VERIF_CVC5_TIMEOUT_S', '240'))
 CVC5 = '/usr/bin/cvc5'
 
 
